@@ -31,3 +31,7 @@ chk('C13', 'exploration',
     'Contents are steered so that every reachable (symbol class x residue x distance-to-capacity) cell is hit; the data bits after the last decoded segment are compared bit by bit with an ISO 7.4.9/7.4.10 tail model, remainder bits must be zero. One known finding (K1) is matched by an exact tail model and reported, everything else is a violation.',
     'Trusted: iso_tail model and decoder in vlib/qrref.py (the grids printed in the standard reproduce bit-exactly). Sampled over contents; the cell table is in the evidence.',
     'steered enumeration + Hypothesis search, tail compared with an ISO model', 'DESIGN.md 4/C13')
+chk('C08', 'exploration',
+    'Generated contents of nine classes and lengths from 1 character to 16 symbols x version or symbol_count x level x boost x mask x encoding: every returned symbol is checked structurally (C02), by syndromes (C03) and decoded; header position/total/parity, the concatenated payload and the symbol count / version promises are compared with the statement; refusals are judged by a per-symbol capacity model. One known finding (K3, 16-symbol limit of the version path) is matched narrowly.',
+    'Trusted: reference decoder, capacity model. Sampled; per-symbol boundary lengths for versions 1-4 (1-10 thorough) enumerated.',
+    'Hypothesis search + boundary enumeration, reassembly through an independent reference decoder', 'DESIGN.md 4/C08')
